@@ -16,6 +16,7 @@ META_VALUES = [
     {"k": 1, "tag": "x"},
     {"tag": "y"},
     {"tag": "x", "k": 1},  # equal to #2, other key insertion order
+    {"k": "1"},  # prints like #0, other value type
 ]
 # nested values (not hashable: never used where custom_metadata_type_limit
 # is exercised); the last two are equal with different insertion orders
@@ -62,8 +63,10 @@ def st_runs(eps_hint: int,
     run = st.tuples(
         st.integers(0, 2),
         st_count(eps_hint, min_count),
-        (st.sampled_from([0, 0, 0, 1, 2, 3, 4, 4, 5, 6, 6])
+        (st.sampled_from([0, 0, 0, 1, 2, 3, 4, 4, 5, 6, 6, 7])
          if metas else st.just(0)),
+        # position of an attempted-and-rejected write inside the run
+        st.one_of(st.none(), st.none(), st.none(), st.integers(0, 12)),
     ).map(list)
     return st.lists(run, min_size=min_runs, max_size=max_runs)
 
@@ -172,6 +175,8 @@ class History:
         self.desc = desc
         self.ds = dsops.create_dataset(self.root, desc)
         self.model: dict[str, list] = {s: [] for s in dsops.SPLITS}
+        # every write_example CALL in order, incl. rejected attempts
+        self.calls: dict[str, list] = {s: [] for s in dsops.SPLITS}
         self.dirs: list[str] = []  # sub-directories already used by fillers
         self.session_no = 0
         self.sessions: list[dict] = []
@@ -207,10 +212,19 @@ class History:
         """[[split_idx,n,meta_idx]] -> concrete runs + model records."""
         concrete, records = [], []
         seq = base_seq
-        for split_idx, n, meta_idx in runs:
+        for run in runs:
+            split_idx, n, meta_idx = run[0], run[1], run[2]
+            bad_at = run[3] if len(run) > 3 else None
             split = dsops.SPLITS[split_idx % 3]
             ids = []
-            for _ in range(n):
+            for pos in range(n):
+                if bad_at is not None and pos == bad_at % max(n, 1):
+                    records.append((split, {
+                        "id": None,
+                        "session": self.session_no,
+                        "writer": writer,
+                        "meta": meta_of(meta_idx),
+                    }))
                 ex_id = (self.session_no * 1_000_000 + writer * 10_000 + seq)
                 seq += 1
                 ids.append(ex_id)
@@ -220,7 +234,7 @@ class History:
                     "writer": writer,
                     "meta": meta_of(meta_idx),
                 }))
-            concrete.append([split, ids, meta_of(meta_idx)])
+            concrete.append([split, ids, meta_of(meta_idx), bad_at])
         return concrete, records
 
     def apply(self, op: dict) -> dict:
@@ -259,9 +273,13 @@ class History:
         else:
             raise ValueError(kind)
         for split, rec in records:
-            self.model[split].append(rec)
-        info["written"] = len(records)
-        info["splits"] = sorted({s for s, _ in records})
+            self.calls[split].append(rec)
+            if rec["id"] is not None:
+                self.model[split].append(rec)
+        accepted = [(s, r) for s, r in records if r["id"] is not None]
+        info["written"] = len(accepted)
+        info["rejected_attempts"] = len(records) - len(accepted)
+        info["splits"] = sorted({s for s, _ in accepted})
         self.sessions.append(info)
         self.session_no += 1
         return info
